@@ -72,7 +72,7 @@ def rule_mask(ctx, fs):
                    f"{norm(st.targets[0], 40)} reads {sorted(set(reads))}" if ok else
                    f"`{norm(st, 110)}` assigns the rows [{m}] but reads {bad or unmasked}: values of other elements are used "
                    "(or the shapes only agree by accident)", fi.loc(st))
-    if n < 5:
+    if n < 4:
         ctx.fail(f"SAT-MASK: only {n} masked assignments found in the saturation functions (confirmed: 5)")
 
 
@@ -232,10 +232,76 @@ def rule_write(ctx):
         ctx.fail("write_to_net: stores of p_mw / q_mvar not found")
 
 
+def rule_prio_and_inputs(ctx):
+    R = "SAT-PRIO"
+    ctx.rule(R, "_saturate_sn_mva_step limits BOTH quantities in both priority modes: the prioritised one is clipped to the apparent "
+                "power limit, the other one gets the remaining room - if the clip of the prioritised quantity is missing, p (or q) alone "
+                "may exceed saturate_sn_mva")
+    fi = ctx.repo.func(f"{DC}:DERController._saturate_sn_mva_step")
+    pr = next((n for n in ast.walk(fi.node) if isinstance(n, ast.If) and "q_prio" in norm(n.test, 40)), None)
+    if pr is None:
+        ctx.fail("_saturate_sn_mva_step: priority distinction not found")
+    for label, body in (("q-priority", pr.body), ("p-priority", pr.orelse)):
+        assigned = []
+        for st in body:
+            for x in ast.walk(st):
+                if isinstance(x, ast.Assign) and isinstance(x.targets[0], ast.Subscript) and isinstance(x.targets[0].value, ast.Name):
+                    assigned.append((x.targets[0].value.id, x))
+        names = [a for a, _ in assigned]
+        first = assigned[0] if assigned else None
+        want_first = "q_pu" if label == "q-priority" else "p_pu"
+        clipped = first is not None and first[0] == want_first and any(
+            isinstance(c, ast.Call) and (dotted(c.func) or "").split(".")[-1] in ("clip", "minimum", "maximum") and "sat_s_pu" in norm(c, 200)
+            for c in ast.walk(inline_locals(fi.node, first[1].value, keep=("p_pu", "q_pu", "to_saturate", "sat_s_pu"))))
+        ok = {"p_pu", "q_pu"} <= set(names) and clipped
+        ctx.ob(R, f"{DC}::DERController._saturate_sn_mva_step::{label}", ok,
+               f"{want_first} clipped to sat_s, the other quantity takes the rest" if ok else
+               f"the {label} branch assigns {names or 'nothing'}" + ("" if clipped else f" and does not clip {want_first} to sat_s_pu first") +
+               f": {want_first} alone can exceed the apparent power limit", fi.loc(pr))
+    R2 = "AREA-INPUTS"
+    ctx.rule(R2, "every point list / limit passed to the constructor of a capability area (PQVAreas) is used by it: a parameter that is "
+                 "accepted and never read means the area is built from another parameter's data; the bus voltage of each DER is looked "
+                 "up by bus label (.loc / .reindex), never by using the labels as positions")
+    n = 0
+    m = ctx.repo.module(PA)
+    for ci in m.classes.values():
+        init = ci.methods.get("__init__")
+        if init is None:
+            continue
+        params = [a.arg for a in init.node.args.args[1:] + init.node.args.kwonlyargs]
+        used = {x.id for x in ast.walk(init.node) if isinstance(x, ast.Name) and isinstance(x.ctx, ast.Load)}
+        forwards_all = init.node.args.kwarg is not None and any(isinstance(x, ast.keyword) and x.arg is None for x in ast.walk(init.node))
+        for prm in params:
+            n += 1
+            ok = prm in used
+            ctx.ob(R2, f"{PA}::{ci.name}.__init__::{prm}", ok, f"parameter {prm} is used" if ok else
+                   f"{ci.name}.__init__ accepts `{prm}` but never reads it: the area is built without (or from other) data, so the "
+                   "declared limits are not the enforced ones", init.loc())
+    if n < 15:
+        ctx.fail(f"AREA-INPUTS: only {n} constructor parameters found in PQVAreas (confirmed: 20+)")
+    fd = ctx.repo.func(f"{DC}:DERController._determine_target_powers")
+    vm = [st for st in ast.walk(fd.node) if isinstance(st, ast.Assign) and norm(st.targets[0], 20) == "vm_pu"]
+    if not vm:
+        ctx.fail("_determine_target_powers: vm_pu assignment not found")
+    for st in vm:
+        positional = [x for x in ast.walk(st.value) if isinstance(x, ast.Subscript) and (
+            (isinstance(x.value, ast.Attribute) and x.value.attr in ("values", "iloc", "iat", "array")) or
+            (isinstance(x.value, ast.Call) and isinstance(x.value.func, ast.Attribute) and x.value.func.attr == "to_numpy"))
+            and "bus" in norm(x.slice, 80)]
+        by_label = any(isinstance(x, ast.Subscript) and isinstance(x.value, ast.Attribute) and x.value.attr in ("loc", "at") and "bus" in norm(x.slice, 80)
+                       for x in ast.walk(st.value)) or ".reindex(" in norm(st.value, 200)
+        ok = by_label and not positional
+        ctx.ob(R2, f"{DC}::DERController._determine_target_powers::vm-lookup", ok,
+               "bus voltages are looked up by bus label" if ok else
+               f"`{norm(st, 110)}` uses bus labels as row positions: with a bus index that is not 0..n-1 each DER is limited for the voltage "
+               "of another bus", fd.loc(st))
+
+
 def run(ctx):
     ctx.assume("decides the structure of the saturation of the target (masks, bounds, order, write-back); containment in run-time "
                "capability polygons and the effect of the damping factor on intermediate steps are not decided")
     fs = [ctx.repo.func(f"{DC}:DERController._saturate"), ctx.repo.func(f"{DC}:DERController._saturate_sn_mva_step")]
+    rule_prio_and_inputs(ctx)
     rule_mask(ctx, fs)
     rule_clamp(ctx)
     rule_disc(ctx)
@@ -251,6 +317,9 @@ def variants(repo):
     return [
         V("area clamp only when no element is inside", p, replace_once("if not all(in_area):", "if not any(in_area):"), "clamp-guard"),
         V("saturation switched off by one NaN limit", p, replace_once("        to_saturate = p_pu ** 2 + q_pu ** 2 > sat_s_pu ** 2\n", "        if sat_s_pu.isnull().any():\n            return p_pu, q_pu\n        to_saturate = p_pu ** 2 + q_pu ** 2 > sat_s_pu ** 2\n"), "single-exit"),
+        V("p-priority without the clip of p", p, replace_once("                p_pu[to_saturate] = np.clip(p_pu[to_saturate], 0., sat_s_pu[to_saturate])\n", ""), "SAT-PRIO"),
+        V("QV polygon built from the PQ list", pa, replace_once("self.qv_area = QVAreaPOLYGON(q_qv_points_pu, vm_points_pu)", "self.qv_area = QVAreaPOLYGON(q_pq_points_pu, vm_points_pu)"), "AREA-INPUTS"),
+        V("bus voltage by position", p, replace_once('vm_pu = net.res_bus.loc[self.bus, "vm_pu"].set_axis(self.element_index)', 'vm_pu = pd.Series(net.res_bus["vm_pu"].values[self.bus.values], index=self.element_index)'), "vm-lookup"),
         V("flexibility for all rows", p, replace_once("p_pu=p_pu[~in_area], vm_pu=vm_pu[~in_area])", "p_pu=p_pu[~in_area], vm_pu=vm_pu[in_area])"), "SAT-MASK"),
         V("q clipped with limits of all rows", p, replace_once("q_pu[to_saturate] = np.clip(q_pu[to_saturate], -sat_s_pu[to_saturate],", "q_pu[to_saturate] = np.clip(q_pu[to_saturate], -sat_s_pu,"), "SAT-MASK"),
         V("clamp columns swapped", p, replace_once("q_pu[~in_area], min_max_q_pu[:, 0]), min_max_q_pu[:, 1])", "q_pu[~in_area], min_max_q_pu[:, 1]), min_max_q_pu[:, 0])"), "q-clamp"),
